@@ -79,63 +79,57 @@ example : ((run C01.sampleGraph 2 (init C01.sampleGraph 2)
      .finish 4 .skipped, .receive 3, .receive 4]).map (fun s => (finalB C01.sampleGraph s, s.mode 1, s.mode 3, s.mode 4)))
     = some (true, some .skip, some .skip, some .skip) := by decide
 
-/-! ### Which handler exceptions become the pending failure (`_handler_loop`: `except Exception`)
+/-! ### Which handler exceptions become the pending failure (`_handler_loop`: `except BaseException`, fix D42)
 
-    Full-strength statement of the property's last clause ("an error carrying the original error text is raised to the
-    caller", for whatever a backend raises):
+    The property's last clause — "an error carrying the original error text is raised to the caller" — for WHATEVER a
+    backend raises.  Before fix D42 (`fixes/D42-handler-base-exception.diff`) `_handler_loop` had `except Exception`: a
+    handler ending with GeneratorExit / SystemExit / KeyboardInterrupt killed the event-handling thread silently and the
+    statement below was false for those classes (it was proved under the guard `c.isException = true`, with a refutation
+    for `systemExit`).  The repaired code records every handler failure; the guard and the refutation are gone.  The tie
+    to the code is the extracted table `runOutcomeTable` (the real `run_suites` executed with a handler raising each class). -/
 
-        ∀ (c : RunOutcome.FaultClass) interrupted successful text,
-          RunOutcome.outcome { …, pending := RunOutcome.pendingAfter c text, … } = .raisedBackendError text
-
-    It is FALSE for the code that exists (finding D42, open; repair proposed in fixes/D42-handler-base-exception.diff):
-    `backend_error_statement_refuted`.  It is proved under the exact guard that excludes the witness class
-    (`c.isException = true`: every Exception — StopIteration and StopAsyncIteration, which iteration protocols swallow,
-    included), and the excluded class is covered by its own theorem (`base_exception_in_handler_is_silent`).  The tie to
-    the code is the extracted table `runOutcomeTable` (the real `run_suites` executed with a handler raising each class). -/
-
-/-- Partial (guard = what `except Exception` catches): whatever Exception a handler raises — the classes with a meaning
-    for `next()` / `list(map(..))` / `async for` included — reaches the caller with its text, interrupted or not. -/
-theorem handler_exception_reaches_the_caller_partial (c : RunOutcome.FaultClass) (hc : c.isException = true)
+/-- Whatever a handler raises — any Exception, the classes with a meaning for `next()` / `list(map(..))` / `async for`,
+    and the BaseExceptions that are no Exception (`sys.exit()` in a handler, GeneratorExit, KeyboardInterrupt) — reaches the
+    caller with its text, interrupted or not. -/
+theorem handler_exception_reaches_the_caller (c : RunOutcome.FaultClass)
     (interrupted successful : Bool) (text : String) :
     RunOutcome.outcome { interrupted := interrupted, taskException := false,
                          pending := RunOutcome.pendingAfter c text, successful := successful }
       = .raisedBackendError text := by
-  simp [RunOutcome.outcome, RunOutcome.runTasksEnd, RunOutcome.pendingAfter, hc]
+  simp [RunOutcome.outcome, RunOutcome.runTasksEnd, RunOutcome.pendingAfter]
 
-/-- The iteration-protocol classes are recorded like any other exception: the handlers of an event are called by a plain
-    `for` loop, nothing between the handler and `except Exception` gives StopIteration a meaning. -/
+/-- Every handler failure is recorded as the pending failure, whatever its class: nothing between the handler and the
+    `except BaseException` of `_handler_loop` gives StopIteration (or any class) a meaning, and no class escapes it. -/
+theorem every_handler_failure_is_recorded (c : RunOutcome.FaultClass) (text : String) :
+    RunOutcome.pendingAfter c text = some text := rfl
+
+/-- … in particular the iteration-protocol classes -/
 theorem iteration_protocol_exceptions_are_recorded (text : String) :
     RunOutcome.pendingAfter .stopIteration text = some text ∧
     RunOutcome.pendingAfter .stopAsyncIteration text = some text ∧
-    RunOutcome.pendingAfter .exception text = some text := by
-  simp [RunOutcome.pendingAfter, RunOutcome.FaultClass.isException]
+    RunOutcome.pendingAfter .exception text = some text := ⟨rfl, rfl, rfl⟩
 
-/-- The excluded class (D42): a BaseException that is no Exception raised inside a handler is NOT recorded — the
-    event-handling thread dies, the run goes on and returns its verdict as if nothing had happened. -/
-theorem base_exception_in_handler_is_silent (c : RunOutcome.FaultClass) (hc : c.isException = false)
-    (interrupted successful : Bool) (text : String) :
-    RunOutcome.outcome { interrupted := interrupted, taskException := false,
-                         pending := RunOutcome.pendingAfter c text, successful := successful }
-      = .returned successful := by
-  simp [RunOutcome.outcome, RunOutcome.runTasksEnd, RunOutcome.pendingAfter, hc]
+/-- The caller never gets a SystemExit / KeyboardInterrupt / GeneratorExit from a backend: the error is the framework's
+    own exception exactly for the classes that are no Exception (every Exception class is re-raised as itself when it
+    can be built from one message — `C11/original-text-lost/<Class>` checks the text either way). -/
+theorem non_exception_failure_is_raised_as_framework_error (c : RunOutcome.FaultClass) :
+    RunOutcome.reraisedAsFrameworkError c = true ↔
+      (c = .generatorExit ∨ c = .systemExit ∨ c = .keyboardInterrupt) := by
+  cases c <;> simp [RunOutcome.reraisedAsFrameworkError, RunOutcome.FaultClass.isException]
 
-/-- Refutation of the full-strength statement, with the concrete witness (`sys.exit()` in a handler). -/
-theorem backend_error_statement_refuted :
-    ¬ ∀ (c : RunOutcome.FaultClass) (interrupted successful : Bool) (text : String),
-        RunOutcome.outcome { interrupted := interrupted, taskException := false,
-                             pending := RunOutcome.pendingAfter c text, successful := successful }
-          = .raisedBackendError text := by
-  intro h
-  have := h .systemExit false true "backend boom"
-  revert this; decide
+/-- non-vacuity: the former witness of the refutation (`sys.exit()` in a handler) now reaches the caller -/
+example : RunOutcome.outcome { interrupted := false, taskException := false,
+                               pending := RunOutcome.pendingAfter .systemExit "backend boom", successful := true }
+    = .raisedBackendError "backend boom" := by decide
 
-/-- the guard is exactly "not one of the three": the class names the harness injects, decoded as the driver does -/
+/-- the class names the harness injects, decoded as the driver does: which ones are Exceptions -/
 example : (["Exception", "KeyError", "Custom", "StopIteration", "StopAsyncIteration", "GeneratorExit", "SystemExit",
             "KeyboardInterrupt"].map fun n => (RunOutcome.FaultClass.ofName n).isException)
     = [true, true, true, true, true, false, false, false] := by decide
 
-/-- In the acceptor a handler raise that `_handler_loop` does not catch sets no flag (nothing will be skipped because of
-    it), a caught one makes the pending failure possibly visible from then on. -/
+/-- In the acceptor a handler raise makes the pending failure possibly visible from then on (`caught` is true for every
+    class since fix D42: `drivers/Run.lean` computes it as `(pendingAfter c _).isSome`; a raise that were not caught would
+    set no flag). -/
 theorem backend_raise_flag (c : Ctx) (g : G) (k : Nat) (caught : Bool) :
     ∃ g', RunAccept.step c g (.backendRaise k caught) = .ok g' ∧
       g'.startedEff.pending = (caught || g.startedEff.pending) ∧ g'.defF = g.defF ∧ g'.sched = g.sched :=
